@@ -25,6 +25,10 @@ MCAUSE = {"stop": "CStop", "drain": "CStop", "pserr": "CStop", "pspanic": "CStop
           # post_stop; the start task (spawn_instant) aborted during pre_start = the guard without an event
           "abort0": "CAbort", "abortidle": "CAbort", "aborthandler": "CAbort", "abortps": "CAbortPs",
           "abortstart": "CPreStartFail"}
+# causes that work for a remote-id handle (no plain messages, no spawn_instant)
+REMOTE_OK = ("stop", "drain", "kill", "stopkill", "pserr", "pspanic", "postfail", "postkill", "abort0",
+             "abortidle", "abortps")
+FRAGILE_OK = ("stop", "drain", "err")
 NOSUP = ()     # (pre_start causes use spawn_instant, or spawn_linked_instant when there is a supervisor)
 KILLPARK = ("stopkill", "abortps")                           # post_stop parked, ended by kill / abort
 STOPLIKE = ("stop", "pserr", "pspanic", "stopkill", "abortps")
@@ -55,6 +59,10 @@ def translate(scn):
     fails (Err(Messaging)), in which case the call never waits and C06 says nothing about it."""
     cause, sup, park = scn["cause"], scn["sup"], scn["park"]
     mc = MCAUSE[cause]
+    if scn.get("fragile") and not sup:
+        # the terminal event of an unsupervised actor is dropped inside cleanup(): the destructor
+        # panics, cleanup unwinds, the guard's Drop runs the cleanup again
+        mc = {"CStop": "CStopUnwind", "CErr": "CErrUnwind"}[mc]
     hops, mops, ws = [], [], []
     idmap = {}          # harness waiter id -> model waiter index
     expect_err = set()  # harness waiter ids whose send part fails
@@ -64,7 +72,7 @@ def translate(scn):
     stop_sent = False
     marker_sent = False     # DRAIN_MARKER_SENT
     ports_alive = True      # the actor's receivers exist (until processing_loop / start returns)
-    if mc == "CStop" and not park:
+    if mc in ("CStop", "CStopUnwind") and not park:
         mops.append("OpOpen 1%N")
     nid = 0
 
@@ -170,11 +178,13 @@ def translate(scn):
             raise ValueError(op)
     kinds = kid_kinds(scn["kids"])
     line = (f"wait cause={cause} sup={1 if sup else 0} kids={','.join(kinds)} park={1 if park else 0}"
-            + (" tl=1" if scn.get("tl") else "") + (" via=children" if scn.get("via") == "children" else "") + " ; "
+            + (" tl=1" if scn.get("tl") else "") + (" via=children" if scn.get("via") == "children" else "")
+            + (" remote=1" if scn.get("remote") else "") + (" fragile=1" if scn.get("fragile") else "") + " ; "
             + " ; ".join(hops))
     s0 = "Starting" if cause in STARTING else "Running"
     ks = "[" + "; ".join(KID_STATUS[k] for k in kinds) + "]"
-    args = f"{s0} [{'; '.join(ws)}] {mc} {'true' if sup else 'false'} {ks} [{'; '.join(mops)}]"
+    args = (f"{s0} [{'; '.join(ws)}] {mc} {'true' if sup else 'false'} {ks} "
+            f"{'true' if scn.get('remote') else 'false'} [{'; '.join(mops)}]")
     return {"line": line, "args": args, "idmap": idmap, "expect_err": expect_err, "helpers": helpers, "mc": mc,
             "sup": sup, "n_model_waiters": len(ws)}
 
@@ -267,6 +277,10 @@ def gen_scenario(rng):
     scn = {"cause": cause, "sup": sup, "kids": kids, "park": park, "ops": ops}
     if not cause.startswith("abort") and rng.random() < 0.15:
         scn["tl"] = True                # a thread-local actor (own OS thread and runtime)
+    elif sup and cause in REMOTE_OK and rng.random() < 0.2:
+        scn["remote"] = True            # a remote ActorId (spawn_linked_remote): no name/pid, but pg
+    elif cause in FRAGILE_OK and rng.random() < 0.35:
+        scn["fragile"] = True           # final State / error value with a panicking destructor
     if sup and cause in STOPLIKE + ("drain",) and ["x"] in ops and rng.random() < 0.35:
         scn["via"] = "children"         # delivered by the supervisor's stop_children() / drain_children()
     return scn
@@ -348,7 +362,7 @@ def thr_translate(scn):
     paused.clear()
     n = (max(started) + 1) if started else 0
     line = f"thr sup={1 if sup else 0} exit={plan} ; " + " ; ".join(hops)
-    init = f"(scenario_init_k Running [{'; '.join(['W0'] * n)}] CStop {'true' if sup else 'false'} [Running])"
+    init = f"(scenario_init_k Running [{'; '.join(['W0'] * n)}] CStop {'true' if sup else 'false'} [Running] false)"
     return {"line": line, "labels": "[" + "; ".join(labels) + "]", "init": init, "sup": sup}
 
 
@@ -450,6 +464,25 @@ def exhaustive_audit():
                 out.append(dict(base, ops=[["w", "inline", "none", ""], ["w", helper, "none", "cause"]]
                                 + ([["w", "dc" if helper == "sc" else "sc", "long", ""]] if park else []) + rel
                                 + [["w", "wait", "none", ""]]))
+    # (c) remote-id handles: every workable cause; (d) panicking destructors, unsupervised and supervised
+    for cause in REMOTE_OK:
+        park = cause in PARKABLE
+        ops = [["w", "wait", "none", ""], ["w", "inline", "none", ""], ["x"]]
+        if park:
+            ops += [["w", "wait", "none", ""], ["k", "release"] if cause in KILLPARK else ["g"]]
+        ops += [["w", "join", "none", ""], ["w", "wait", "none", ""]]
+        out.append({"cause": cause, "sup": True, "kids": ["run"], "park": park, "ops": ops, "remote": True})
+    for cause in FRAGILE_OK:
+        for sup in (False, True):
+            for park in ((False, True) if cause in PARKABLE else (False,)):
+                for first in ("x", "w"):
+                    deliver = [["x"]] if first == "x" or cause == "err" else [
+                        ["w", "drainw" if cause == "drain" else "stopw", "none", "cause"]]
+                    ops = [["w", "wait", "none", ""], ["w", "inline", "none", ""], ["w", "join", "none", ""]] + deliver
+                    if park:
+                        ops += [["w", "wait", "long", ""], ["g"]]
+                    ops += [["w", "wait", "none", ""], ["w", "killw", "none", ""]]
+                    out.append({"cause": cause, "sup": sup, "kids": ["drain"], "park": park, "ops": ops, "fragile": True})
     return out
 
 
@@ -556,6 +589,10 @@ def run(chk):
             chk.count("thread_local_actor")
         if scn.get("via"):
             chk.count("via." + scn["via"])
+        if scn.get("remote"):
+            chk.count("remote_id_actor")
+        if scn.get("fragile"):
+            chk.count("panicking_destructor")
         for kk in kid_kinds(scn["kids"]):
             chk.count("kid." + kk)
         chk.count("source." + src.split(":")[0])
